@@ -13,7 +13,7 @@ EXTENDS Text, Json, SequencesExt
 
 CONSTANTS Mode, MaxLen, Shard, NShards, OutFile, Seed, Stride
 
-CoarseQ == <<97, 49, 95, 32, 34, 39, 96, 92, 91, 93, 63, 124, 61, 38, 45, 46, 117, 1, 9, 127, 128, 233, 119070, 65533, 123, 58, -255, 40, 41, 64, 42, 44>>
+CoarseQ == <<97, 110, 98, 49, 95, 32, 34, 39, 96, 92, 91, 93, 63, 124, 61, 38, 45, 46, 117, 1, 9, 127, 128, 233, 119070, 65533, 123, 58, -255, 40, 41, 64, 42, 44>>
 FineQ == [i \in 1..128 |-> i - 1] \o <<128, 129, 255, 256, 2047, 2048, 65533, 65535, 65536, 1114111, -128, -192, -255>>
 AQ == IF Mode = "fine" THEN FineQ ELSE CoarseQ
 NA == Len(AQ)
@@ -42,14 +42,16 @@ IdentTexts(c) == << <<97, c>>, <<c, 97>>, <<97, c, 98>>, <<95, c, 49>>, <<97, 49
 ValidUtf8(x) == \A i \in 1..Len(x) : x[i] >= 0
 (* the C14 spellings of s, each with the value the property assigns (stated from s, not through the lexer model) *)
 C14Cases(i, s) ==
-  LET mk(j, text, v) == [k |-> "case", id |-> i * 8 + j, n |-> Len(s) + 1, srcs |-> <<text>>, compile |-> "ok", errkind |-> "", offset |-> -1,
+  LET mk(j, text, v) == [k |-> "case", id |-> i * 16 + j, n |-> Len(s) + 1, srcs |-> <<text>>, compile |-> "ok", errkind |-> "", offset |-> -1,
                          allowed |-> <<{Ok(v)}>>, docidx |-> <<1>>]
   IN <<mk(1, LitText(Obj({<<s, IntV(7)>>})) \o <<124>> \o QuoteId(s), IntV(7)),
        mk(2, LitText(Str(s)), Str(s)),
        mk(4, <<123>> \o QuoteId(s) \o <<58>> \o LitText(Str(s)) \o <<125>>, Obj({<<s, Str(s)>>})),
        mk(5, <<108, 101, 110, 103, 116, 104, 40>> \o LitText(Str(s)) \o <<41>>, IntV(Len(s))),
        mk(6, LitText(Arr(<<Str(s), Str(s)>>)) \o <<91, 49, 93>>, Str(s))>>
-     \o (IF RawSpellable(s) THEN <<mk(3, RawText(s), Str(s)), mk(7, <<32>> \o RawText(s) \o <<61, 61>> \o LitText(Str(s)) \o <<9>>, Bool(TRUE))>> ELSE <<>>)
+     \o (IF RawSpellable(s) THEN <<mk(8, <<91>> \o RawText(s) \o <<44>> \o RawText(s) \o <<44>> \o RawText(<<120>> \o s) \o <<93>>, Arr(<<Str(s), Str(s), Str(<<120>> \o s)>>)),
+                                   mk(9, RawText(s) \o <<124>> \o RawText(s \o <<121>>), Str(s \o <<121>>)),
+                                   mk(3, RawText(s), Str(s)), mk(7, <<32>> \o RawText(s) \o <<61, 61>> \o LitText(Str(s)) \o <<9>>, Bool(TRUE))>> ELSE <<>>)
 
 Mine(total) == LET per == (total + NShards - 1) \div NShards IN
                SelectSeq([m \in 1..per |-> (m - 1) * NShards + Shard], LAMBDA i : i < total /\ (i \div NShards) % Stride = Seed % Stride)
